@@ -107,6 +107,45 @@ def expected_deps(exp):
   return sorted(deps.dependencies.items()), sorted(deps.late_dependencies.items())
 
 
+def _late_names(ast):
+  from pytype.pytd import visitors
+
+  class V(visitors.Visitor):
+
+    def __init__(self):
+      super().__init__()
+      self.names = []
+
+    def EnterLateType(self, t):
+      self.names.append(t.name)
+
+  v = V()
+  ast.Visit(v)
+  return v.names
+
+
+def _module_aliases(u):
+  from pytype.pytd import pytd
+  out = {}
+  for a in u.aliases:
+    if isinstance(a.type, pytd.Module):
+      n = a.name
+      if n.startswith(u.name + "."):
+        n = n[len(u.name) + 1:]
+      out[n] = a.type.module_name
+  return out
+
+
+def _undo_alias(name, aliases):
+  """`al.x.y` -> `<module of al>.x.y` for the longest aliased dotted prefix."""
+  parts = name.split(".")
+  for k in range(len(parts) - 1, 0, -1):
+    head = ".".join(parts[:k])
+    if head in aliases:
+      return ".".join([aliases[head]] + parts[k:])
+  return name
+
+
 def _mask_msg(e):
   import re
   m = str(e)
@@ -176,6 +215,16 @@ def _check_ast(u, src_path, metadata, counters, data):
   if d:
     v("decoded AST differs field-wise from the canonical original at " + _unindex(d[0]) +
       ": " + _kind_of(d[1]), "strict", where=d[0], what=d[1])
+  # LateType names: module aliases must be undone (independent re-implementation)
+  if not u.name.endswith(".__init__"):
+    want = sorted(_undo_alias(n, _module_aliases(u)) for n in _late_names(u))
+    got = sorted(_late_names(dec.ast))
+    c["late_types"] += len(got)
+    c["late_types_behind_alias"] += sum(1 for a, b in zip(sorted(_late_names(u)), want) if a != b)
+    if want != got:
+      bad = next(((a, b) for a, b in zip(want, got) if a != b), (len(want), len(got)))
+      v("LateType names of the decoded AST are not the originals with module aliases undone",
+        "latetype", want=repr(bad[0])[:200], got=repr(bad[1])[:200])
   # bytes
   try:
     c["bytes_checked"] += 1
@@ -273,6 +322,8 @@ def hash_root(a, b):
                  type(a).__name__)
     eq_owner = next((k.__name__ for k in type(a).__mro__ if "__eq__" in k.__dict__),
                     type(a).__name__)
+    if eq_owner == owner and owner != type(a).__name__:
+      return f"__eq__ and __hash__ of {owner}"      # one mechanism for all its subclasses
     return f"{type(a).__name__} (__eq__ of {eq_owner}, __hash__ of {owner})"
   return None
 
@@ -344,8 +395,10 @@ def eqhash_pool(nodes, rng, counters=None, max_triples=20000):
       # != must be the negation
       ne = a != b
       if bool(ne) == r:
-        v(f"== and != agree on a pair of {type(a).__name__}/{type(b).__name__}",
-          a=repr(a)[:300], b=repr(b)[:300])
+        eo = next((k.__name__ for k in type(a).__mro__ if "__eq__" in k.__dict__), "?")
+        no = next((k.__name__ for k in type(a).__mro__ if "__ne__" in k.__dict__), "?")
+        v(f"== and != give the same answer (__eq__ of {eo}, __ne__ of {no})",
+          a=repr(a)[:300], b=repr(b)[:300], eq=r, ne=bool(ne))
   for i in range(n):
     if not eq[i][i]:
       v(f"a {type(nodes[i]).__name__} node is not equal to itself", a=repr(nodes[i])[:300])
@@ -384,8 +437,10 @@ def eqhash_pool(nodes, rng, counters=None, max_triples=20000):
     dedup = len(set(hashable))
     c["set_size"] += dedup
     if len(hashable) == n and dedup != len(classes):
-      v("a set of type nodes keeps two equal nodes (set size != number of equality classes)",
-        set_size=dedup, classes=len(classes))
+      c["set_keeps_equal_nodes"] += 1
+      if not c["eq_but_hash_differs"]:      # else a consequence of the hash finding
+        v("a set of type nodes keeps two equal nodes (set size != number of equality classes)",
+          set_size=dedup, classes=len(classes))
   except TypeError:
     pass
   return out
